@@ -424,7 +424,7 @@ def gen_program(rnd, pid, crate, rich=True):
         g = {"mods": path, "raw": raw, "name": strip_raw(raw), "opts": progs.rand_opts(rnd, 0.3),
              "file": "", "line": 0, "col": 0, "cost": rnd.choice(COST),
              "attr_style": rnd.choice(["single", "multi", "lead_comment"])}
-        c = custom(path, BENCH_CUSTOM, 0.2)
+        c = custom(path, BENCH_CUSTOM, 0.45)
         if c:
             g["custom_name"] = c
             g["name"] = c
